@@ -2,8 +2,15 @@
 from .fsm_common import fsm_job
 from .sync_common import *
 
-INFO = {"outside": "wip", "assumptions": []}
-MANIFEST = {"text": "wip", "note": "wip"}
+INFO = {
+    "outside": 'as C05',
+    "assumptions": ['as C05', 'time_t arithmetic on 64-bit time_t'],
+}
+MANIFEST = {
+    "text": "(a) real rtr_fsm_start loop from an arbitrary SInv state with a symbolic clock (which may also fail) and symbolic intervals: at every connection attempt, judged on the clock reading the code itself obtained, records older than the expire interval have been removed and the conversation restarts with a Reset Query; rtr_stop removes the socket's data. (b) real rtr_sync on skeletons: last_update is only stamped by a successful exchange and survives every failed or interrupted one while the cache's records remain (the invariant (a) relies on).",
+    "note": "Bounded: B = 8 / 12 interactions; 'records present' is a ghost flag set by the sync contract and cleared by the table purge stubs; table model in (b).",
+    "technique": 'CBMC k-step induction on real rtr_fsm_start with symbolic clock + rtr_sync skeleton unit',
+}
 
 
 def jobs(tier):
